@@ -3,6 +3,7 @@ package main
 import (
 	"errors"
 	"fmt"
+	"time"
 
 	"go.lstv.dev/util/date"
 
@@ -14,6 +15,11 @@ import (
 
 func init() {
 	props["C15"] = runC15
+	replayers["C15/routes"] = func(v rt.Violation) string {
+		c := rt.ReplayCtx("C15")
+		c15Routes(c)
+		return c.Report()
+	}
 	replayers["C15/filter"] = func(v rt.Violation) string {
 		c := rt.ReplayCtx("C15")
 		c.Serial("replay", func(w *rt.W) {
@@ -307,6 +313,8 @@ func runC15(c *rt.Ctx) {
 		}
 	})
 	c.Require("calendar-aligned-year-pair", 150)
+	c15Routes(c)
+	c.Require("bounds-by-every-route", 7)
 	c.Require("leap-window-year", 16)
 	c.Require("far-year-bounds", 1000)
 	// a filter is probed repeatedly: the answer must not depend on what was asked before
@@ -349,4 +357,45 @@ func runC15(c *rt.Ctx) {
 	}
 	c.Require("construction-refused", 10000)
 	c.Require("filter-probed", 1000000)
+}
+
+// c15Routes: see the comment inside.
+func c15Routes(c *rt.Ctx) {
+	// bounds and probes that reached their value by other routes than New (reused variables, FromTime from non-midnight
+	// and pre-1970 times, Scan, the zero time, Add ...)
+	c.Parallel("bounds-and-probes-by-every-route", 0, func(w *rt.W) {
+		ymds := [][3]int{{1, 1, 1}, {1965, 3, 4}, {1969, 12, 31}, {1970, 1, 1}, {2024, 2, 29}, {1900, 3, 1}, {-5, 7, 9}}
+		for i := w.Shard; i < len(ymds); i += w.NShards {
+			y, m, d := ymds[i][0], time.Month(ymds[i][1]), ymds[i][2]
+			o := ref.Ordinal(int64(y), int(m), d)
+			for ri, b := range dateRoutes(y, m, d) {
+				for rj, p := range dateRoutes(y, m, d) {
+					for _, span := range []int64{0, 1, 40} {
+						lo, hi := b, ordDate(o+span)
+						f, err := date.FilterFromTo(&lo, &hi)
+						f2, err2 := date.FilterFromTo(func() *date.Date { x := ordDate(o - span); return &x }(), &b)
+						w.Eval(4)
+						args := rt.Args("from_ordinal", o, "to_ordinal", o+span, "probe_ordinal", o, "from_nil", false, "to_nil", false, "bound_route", ri, "probe_route", rj)
+						if err != nil || err2 != nil || f == nil || f2 == nil {
+							w.Fail("valid-bounds-refused", "routes", args, fmt.Sprint(err, err2), "filters", "bounds in order must be accepted")
+							continue
+						}
+						for _, probe := range []struct {
+							p    date.Date
+							want bool
+						}{{p, true}, {p.Add(0, 0, -1), false}, {ordDate(o + span + 1), false}, {ordDate(o + span), true}} {
+							if got := f.Contains(probe.p); got != probe.want {
+								w.Fail("contains-wrong-by-route", "routes", args, fmt.Sprint(got, " for probe ", probe.p), fmt.Sprint(probe.want), "a bound or probe that reached its value by another route is treated as another day")
+							}
+						}
+						if !f2.Contains(p) || f2.Contains(p.Add(0, 0, 1)) {
+							w.Fail("contains-wrong-by-route", "routes", args, "upper bound by route", "inclusive upper bound", "a bound that reached its value by another route is treated as another day")
+						}
+					}
+				}
+			}
+			w.ClassN("bounds-by-every-route", 1)
+			w.NT(1)
+		}
+	})
 }
